@@ -40,8 +40,18 @@ func (w *Proxy) liveUp(addr string) int {
 }
 
 // ---- C09: pool books vs. the network's truth, at every quiescent point ----
+// multiplexPool: the pool of this run's protocol shares one connection among many requests (its books are
+// judged at idle only: a connection that was told to go away legitimately lives on outside the pool's
+// slots until its requests are finished)
+func (w *Proxy) multiplexPool() bool {
+	return isX(w.P.Proto) && w.P.Proto != ppName && w.P.Proto != "tcp"
+}
+
 func (w *Proxy) checkC09Quiescent() {
 	s := w.S
+	if w.multiplexPool() {
+		return
+	}
 	for _, a := range w.hostAddrs {
 		pb, ok := cluster.VerifConnPool(w.poolProto(), a).(poolBooks)
 		if !ok {
@@ -100,7 +110,13 @@ func (w *Proxy) checkC09Idle() {
 			continue
 		}
 		idle, _, total := pb.VerifPoolBooks()
-		if idle != int(total) {
+		if w.multiplexPool() && !(w.P.Auto && len(w.P.Protos) > 1) {
+			// every connection the network still has open to this host is one of the pool's clients
+			if live := w.liveUp(a); live != int(total) {
+				s.Violate("C09", "connection_outside_pool_at_idle", "multiplex pool %s at idle: the pool's slots hold %d client(s), the network has %d open connection(s) to the host: a connection that is neither in the pool nor closed (or a client whose connection is gone)", a, total, live)
+			}
+		}
+		if idle != int(total) && !w.multiplexPool() { // (a multiplex client's count of streams includes its own heartbeats)
 			s.Violate("C09", "lease_outstanding_at_idle", "pool %s at idle: total=%d idle=%d — %d connection(s) are neither idle nor closed although no request is in flight", a, total, idle, int(total)-idle)
 		}
 	}
